@@ -15,6 +15,9 @@ From TS Require Import Spec.C15RenderSwift.
 From TS Require Proofs.C15_SwiftItem.
 From TS Require Import Spec.C15RenderGo.
 From TS Require Proofs.C15_GoItem Proofs.C15_GoFile.
+From TS Require Import Spec.C15RenderScPy.
+From TS Require Proofs.C15_ScalaItem.
+From TS Require Proofs.C15_PythonItem.
 Import ListNotations.
 
 (* ---- front end (after the repair of parse_comment_attrs): a doc attribute with value v - which is what `/// v`,
@@ -605,3 +608,105 @@ Theorem C15_go_file_line_free : forall (uc : unicode), unicode_ok uc -> forall (
     c15_contained C15go LCode (mark (c15_file_pieces C15go parts)) = true.
 Proof. exact Proofs.C15_GoFile.C15_go_file_line_free. Qed.
 Print Assumptions C15_go_file_line_free.
+(* ======================= Scala WITHOUT the neutrality hypothesis =======================
+   [c15_sc_decl_plain d] (Spec/C15RenderScPy.v, decidable) on an abstract declaration of the model's layout layer: its
+   name, generic parameters, member / variant / parent / content-key names and every PRINTED type contain no `/`, no
+   double and no single quote (the characters that open a comment or a literal for the Scala reference lexer), and the
+   wire name of every variant - printed between double quotes through {:?} - is non-empty and free of control
+   characters.  For every such declaration (type alias, case class, empty class, sealed trait + companion object,
+   helper aliases) the rendered text is code parts and `// ` fragments carrying exactly the declaration's doc strings,
+   in print order, and it is contained iff all of them are safe_sc (no LF / CR) - no hypothesis on the code parts. ---- *)
+Theorem C15_sc_decl : forall d : sc_decl,
+  c15_sc_decl_plain d = true ->
+  exists parts,
+    sc_render_decl d = text_of (c15_file_pieces C15sc parts) /\
+    docs_of (c15_file_pieces C15sc parts) = Proofs.C15.sc_decl_docs d /\
+    c15_contained C15sc LCode (mark (c15_file_pieces C15sc parts)) = forallb safe_sc (Proofs.C15.sc_decl_docs d).
+Proof. exact Proofs.C15_ScalaItem.C15_sc_decl. Qed.
+Print Assumptions C15_sc_decl.
+
+(* ---- Scala, one IR item through the model's write_struct / write_enum (helper case classes of struct variants first,
+   then the sealed trait and its companion object) / write_type_alias (write_const is todo!() in scala.rs and is never
+   reached: no text), on the strict input class of C15_kt_item (non-empty identifiers without comment / literal openers,
+   control characters and backslashes; plain generic parameters, content key and type overrides) with plain
+   type_mappings targets: the declarations computed for the item are plain in the sense above, the printed text
+   carries exactly [c15_item_docs_helpers_first it], in this order, and it is contained iff all of them are safe_sc ---- *)
+Theorem C15_sc_item : forall (cfg : sc_config),
+  c15_mappings_plain C15sc (sc_type_mappings cfg) = true ->
+  forall it text,
+  c15_item_strict C15sc Scala it = true ->
+  sc_write_item cfg it = Ok text ->
+  exists parts,
+    text = text_of (c15_file_pieces C15sc parts) /\
+    docs_of (c15_file_pieces C15sc parts) = c15_item_docs_helpers_first it /\
+    c15_contained C15sc LCode (mark (c15_file_pieces C15sc parts)) =
+    forallb safe_sc (c15_item_docs_helpers_first it).
+Proof. exact Proofs.C15_ScalaItem.C15_sc_item. Qed.
+Print Assumptions C15_sc_item.
+
+(* the declarations of a strict item are plain (what ties C15_sc_decl to the IR) *)
+Theorem C15_sc_item_decls_plain : forall (cfg : sc_config),
+  c15_mappings_plain C15sc (sc_type_mappings cfg) = true ->
+  forall it ds,
+  c15_item_strict C15sc Scala it = true ->
+  sc_decl_of cfg it = Ok ds -> forallb c15_sc_decl_plain ds = true.
+Proof. exact Proofs.C15_ScalaItem.sc_decl_plain_ir. Qed.
+Print Assumptions C15_sc_item_decls_plain.
+
+(* ---- Scala, one item whose doc strings are free of line breaks (every parsed item): contained ---- *)
+Theorem C15_sc_item_line_free : forall (cfg : sc_config),
+  c15_mappings_plain C15sc (sc_type_mappings cfg) = true ->
+  forall it text,
+  c15_item_strict C15sc Scala it = true ->
+  Forall (fun d => safe_line eol_lf_cr d = true) (c15_item_docs it) ->
+  sc_write_item cfg it = Ok text ->
+  exists parts,
+    text = text_of (c15_file_pieces C15sc parts) /\
+    docs_of (c15_file_pieces C15sc parts) = c15_item_docs_helpers_first it /\
+    c15_contained C15sc LCode (mark (c15_file_pieces C15sc parts)) = true.
+Proof. exact Proofs.C15_ScalaItem.C15_sc_item_line_free. Qed.
+Print Assumptions C15_sc_item_line_free.
+
+(* ======================= Python WITHOUT the neutrality hypothesis =======================
+   [c15_py_item_ok it] (Spec/C15RenderScPy.v, decidable).  python.rs prints the JSON key of a field
+   (`Field(alias="key")`) and the wire name of a variant (the members of the (str, Enum) classes, the Types class of a
+   tagged enum) RAW between double quotes, and derives attribute names (convert_case Snake), Types members (Snake,
+   then to_uppercase), unit-enum members (to_uppercase) and constant names (to_snake_case, to_uppercase) through
+   Unicode-table functions.  The class: the names that go through these functions - a field's Rust name, a variant's
+   Rust name and wire name - are ASCII strings over [A-Za-z0-9_-] (a constant's name over [A-Za-z0-9_]); a variant's
+   wire name is non-empty; a field's key is a non-empty string without `#`, quotes, backslash and control characters
+   (c15_ident_ok); struct / enum / alias names, generic parameters, tag and content keys and the identifiers of all types
+   are free of `#` and quotes.  [unicode_ok uc]: the case tables are right on ASCII (Model/Unicode.v; true of the
+   executable tables, uc_exec_ok).  With type_mappings targets free of `#` and quotes, for every printer state (imports,
+   TypeVars, custom translations collected so far): the text py_write_item prints - helper classes, pydantic classes with
+   their Field(..) / Annotated[..] decorations and model_config line, (str, Enum) classes, Types class + variant classes +
+   Union alias, aliases, constants - is code parts and comment fragments carrying exactly the documented positions of
+   [c15_py_item_sites it] in this order, each as written in its form, and it is contained iff every `# ` string (the doc
+   of a tagged enum) is free of LF / CR; no hypothesis on the code parts is left. ---- *)
+Theorem C15_py_item : forall (uc : unicode) (cfg : py_config),
+  unicode_ok uc ->
+  c15_mappings_plain C15py (py_type_mappings cfg) = true ->
+  forall it st text st',
+  c15_py_item_ok it = true ->
+  py_write_item uc cfg it st = Ok (text, st') ->
+  exists parts,
+    text = text_of (c15_file_pieces C15py parts) /\
+    docs_of (c15_file_pieces C15py parts) = map (c15_site_text C15py) (c15_py_item_sites it) /\
+    c15_contained C15py LCode (mark (c15_file_pieces C15py parts)) = forallb (c15_site_ok C15py) (c15_py_item_sites it).
+Proof. exact Proofs.C15_PythonItem.C15_py_item_stmt. Qed.
+Print Assumptions C15_py_item.
+
+(* ---- Python, one item whose doc strings are free of line breaks (every parsed item): contained ---- *)
+Theorem C15_py_item_line_free : forall (uc : unicode) (cfg : py_config),
+  unicode_ok uc ->
+  c15_mappings_plain C15py (py_type_mappings cfg) = true ->
+  forall it st text st',
+  c15_py_item_ok it = true ->
+  Forall (fun d => safe_line eol_lf_cr d = true) (c15_item_docs it) ->
+  py_write_item uc cfg it st = Ok (text, st') ->
+  exists parts,
+    text = text_of (c15_file_pieces C15py parts) /\
+    docs_of (c15_file_pieces C15py parts) = map (c15_site_text C15py) (c15_py_item_sites it) /\
+    c15_contained C15py LCode (mark (c15_file_pieces C15py parts)) = true.
+Proof. exact Proofs.C15_PythonItem.C15_py_item_line_free. Qed.
+Print Assumptions C15_py_item_line_free.
